@@ -366,6 +366,14 @@ bool vfps::ProgramOptions::parse(int ac, char** av)
                     _vm.at("SynchrotronFrequency").value()
                             = _vm["SyncFreq"].value();
                 }
+                if(_vm.count("RFVoltage")) {
+                    _vm.at("AcceleratingVoltage").value()
+                            = _vm["RFVoltage"].value();
+                }
+                if(_vm.count("steps")) {
+                    _vm.at("StepsPerTs").value()
+                            = _vm["steps"].value();
+                }
                 notify(_vm);
             }
         } else if (_configfile != "default.cfg") {
